@@ -60,6 +60,8 @@ def scene_for(eng, cname, second=False):
     st.ghost["frame_cells"] = [b.entry_addr(fn)]
     st.assume(z3.Implies(b.has(fn), b.content_inv(fn, s.cls)))
     st.assume(b.size <= b.cap, b.size >= 0)       # I6: outside an operation the size is within the capacity
+    from contracts.buffers import inv_size
+    st.assume(inv_size(b))                        # Inv.size: the reported size is the sum of the contributions [L-SUM]
     # ... and the same for an arbitrary OTHER buffered file (Skolem), whose entry is a different object
     g0 = smt.fresh("other_file")
     s.other_file = g0
@@ -160,6 +162,7 @@ def check_flush(eng, prover, cname, out):
                     bq.size - bp.size == bq.contrib(fn) - bp.contrib(fn), info=ctx)
         prover.goal(f"C15/{base}/frame:other-entries-untouched", x, others_untouched(eng, pre, x, cname, fn, g0), info=ctx)
         cover_exit(eng, prover, base, x, cname, fn, g0, ctx)
+        size_exit(eng, prover, base, pre, x, cname, fn, g0, ctx)
         # C08 / C17: a flush performs no file primitive of its own (only through _save_to_resource's contract)
         prover.structural(f"C08/{base}/no-own-file-primitive", not any(e[0] == "fs" for e in x.events), x, ctx)
         prover.goal(f"C10/{base}/balance:locks", x, x.g["Depth"] == pre.g["Depth"], info=ctx)
@@ -277,6 +280,21 @@ def cover_exit(eng, prover, base, x, cname, fn, g0, ctx):
         prover.goal(f"C06/{base}/Inv.cover:{nm}", x, z3.Implies(nofault, inv_cover(eng, x, cname, f)), info=ctx)
 
 
+def size_exit(eng, prover, base, pre, x, cname, fn, g0, ctx):
+    """Inv.size re-established on exit ([L-SUM] made explicit): from the last state known to satisfy it - the entry
+    state, or the state right after the last buffer-wide flush on the path - the function changed the size by the
+    contribution delta of ITS file and left every other file's contribution alone.  The (step) lemma is instantiated
+    at the witness file, to which the arbitrary Skolem file g0 is bound (late binding)."""
+    from contracts.buffers import inv_size, lsum_step, sum_diff
+    if any(e[0] == "io-fault" for e in x.events):
+        return
+    anchor = x.ghost.get("size_anchor", pre)
+    ba_, bq = Buf(eng, anchor, cname), Buf(eng, x, cname)
+    eng.note("[L-SUM]")
+    hyp = [g0 == sum_diff(ba_, bq, fn), lsum_step(ba_, bq, fn)]
+    prover.goal(f"C15/{base}/Inv.size-kept", x, z3.Implies(inv_size(ba_), inv_size(bq)), extra=hyp, info=ctx)
+
+
 def check_buffer_guarded(eng, prover, base, x, cname, ctx):
     """Check-then-act atomicity on the buffer (C06, sufficient condition: two objects on one file must not both
     decide "not buffered yet" and overwrite each other's entry): from its FIRST access to the class's _buffer / an
@@ -306,6 +324,7 @@ def check_buffer_guarded(eng, prover, base, x, cname, ctx):
 def common_exit_checks(eng, prover, base, pre, x, res, s, cname, fn, g0, ctx, forced_possible=True):
     bp, bq = Buf(eng, pre, cname), Buf(eng, x, cname)
     cover_exit(eng, prover, base, x, cname, fn, g0, ctx)
+    size_exit(eng, prover, base, pre, x, cname, fn, g0, ctx)
     check_buffer_guarded(eng, prover, base, x, cname, ctx)
     flushed = any(e[0] in ("flush-buffer", "flush-buffer-error") for e in x.events)
     if not flushed:
@@ -472,6 +491,7 @@ def check_object_context_exit(eng, prover, cname, out):
         faulty = any(e[0] == "io-fault" for e in x.events)
         prover.goal(f"C05/{base}/count-decremented", x, as_int(x.rec(ctx_obj).fields["_count"]) == c0 - 1, info=ctx)
         cover_exit(eng, prover, base, x, cname, fn, s.other_file, ctx)
+        size_exit(eng, prover, base, pre, x, cname, fn, s.other_file, ctx)
         prover.goal(f"C05/{base}/inner-exit-writes-nothing", x,
                     z3.Implies(z3.Not(outermost), z3.And(x.g["FS"] == pre.g["FS"], x.g["Res"] == pre.g["Res"])), info=ctx)
         if not isinstance(res, Raise):
@@ -572,6 +592,7 @@ def check_set_capacity(eng, prover, cname, out):
             prover.goal(f"C15/{base}/size-within-capacity-on-return", x, bq.size <= bq.cap, info={"path": k})
         prover.goal(f"C10/{base}/balance:locks", x, x.g["Depth"] == pre.g["Depth"], info={"path": k})
         cover_exit(eng, prover, base, x, cname, fn, s.other_file, {"path": k})
+        size_exit(eng, prover, base, pre, x, cname, fn, s.other_file, {"path": k})
         for e in x.events:
             if e[0] == "requires":
                 prover.goal(f"{req_pid(e)}/{base}/callee-requires:{e[2]}", x, e[3], info={"path": k})
